@@ -43,6 +43,11 @@ def _check(example, repo):
 def run(ctx, prop):
     """Evaluate the witnesses that belong to `prop`; records R8 obligations on ctx."""
     repo = os.environ.get("VERIF_REPO", "/repo")
+    if os.environ.get("VERIF_FACTS_DIR"):
+        # developer aid (tools/evalset.py analyses pre-extracted fact sets of scratch variants whose sources are gone): the type-level
+        # witnesses need the variant's sources, so they are not part of that calibration; every registered check runs them
+        ctx.notes.append("witnesses skipped: analysing a pre-extracted fact set (calibration run)")
+        return
     # the witness crate path-depends on /repo; for a scratch copy the paths are rewritten on the fly
     cargo = open(os.path.join(WDIR, "Cargo.toml")).read()
     restore = None
